@@ -109,7 +109,10 @@ SINGLE = [None, ("X",), ("Z",), ("RZ", "t"), ("RX", "pi"), ("RX", "3pi"), ("RX",
           # components of three and more gates: phase gates BETWEEN partial rotations (they do not commute with them), partial rotations that add up to a multiple of pi
           ("RX", "pi/2", "Z", "RX", "pi/2"), ("RX", "t", "Z", "RX", "pi-t"), ("RX", "t", "RZ", "t", "RX", "-t"), ("X", "Z", "X"), ("RX", "pi", "RZ", "t", "X"),
           ("RZ", "t", "X", "RZ", "t"), ("X", "X", "X"), ("RX", "t", "RX", "pi-t"), ("RX", "pi/2", "RX", "pi/2"), ("X", "RX", "t", "X"), ("RX", "t", "RX", "-t", "Z", "X"),
-          ("RX", "pi/2", "RZ", "pi", "RX", "-pi/2"), ("Z", "X", "Z", "X")]
+          ("RX", "pi/2", "RZ", "pi", "RX", "-pi/2"), ("Z", "X", "Z", "X"),
+          # rotations about DIFFERENT axes whose angles only jointly reach a multiple of pi (the qubit is in a superposition), next to mixed-axis pairs of exact bit flips
+          ("RX", "pi/2", "RY", "pi/2"), ("RX", "t", "RY", "pi-t"), ("RY", "t", "RX", "-t"), ("RY", "pi/2", "RX", "-pi/2"), ("RX", "pi", "RY", "pi"), ("Y", "RX", "pi"),
+          ("X", "RY", "t"), ("RY", "t", "X"), ("RY", "pi", "Z"), ("RY", "pi")]
 
 
 def comp_gates(h, spec, q, tag):
